@@ -269,7 +269,8 @@ theorem C12_gen_facts :
     Pyro.Gen.C12.handleRequestResetsFirst = true ∧
     Pyro.Gen.C12.handshakeResetsFirst = true ∧
     Pyro.Gen.C12.normalReplyResetsAfter = true ∧
-    Pyro.Gen.C12.clientResetsPerCall = true := by decide
+    Pyro.Gen.C12.clientResetsPerCall = true ∧
+    Pyro.Gen.C12.onewayContextIsSnapshot = true := by decide
 
 /-! ### non-vacuity -/
 private def i1 : ReqInfo := ⟨0, 1, 0, 2, [], 0⟩
